@@ -12,8 +12,11 @@ PROPS = {
     "C01": {"units": ["streams"]},
     "C06": {"units": ["streams"]},
     "C07": {"units": ["streams"]},
-    "C12": {"units": ["streams"]},
-    "C20": {"units": ["streams"]},
+    "C08": {"units": ["chunker"]},
+    "C10": {"units": ["chunker"]},
+    "C11": {"units": ["chunker"]},
+    "C12": {"units": ["streams", "chunker"]},
+    "C20": {"units": ["streams", "chunker"]},
 }
 
 NOT_APPLICABLE = [
